@@ -84,3 +84,26 @@ Definition e2e_step (s : e2e_state) (i : N) : e2e_state * N :=
     ft_next 3 st sof frame),
    ft_out 11 3 st sof frame).
 Definition e2e_init : e2e_state := (None, None, (0, 0)).
+
+(* ---- the end-to-end specification as a runtime oracle (monitor with N-packed state) -----------------
+   Used by the C-monitor obligation on simulator traces of the complete device: frame_number,
+   microframe_number, new_frame and sof_detected may change only as e2e_step says, i.e. only at well-formed
+   SOF packets.  Only the first four bytes of the packet in progress are kept: sof_of_packet accepts
+   three-byte packets only, so longer prefixes are all equivalent. *)
+Fixpoint e2e_bytes (n : nat) (v : N) : list N :=
+  match n with O => [] | S k => v mod 256 :: e2e_bytes k (v / 256) end.
+Fixpoint e2e_unbytes (l : list N) : N :=
+  match l with [] => 0 | b :: t => b + 256 * e2e_unbytes t end.
+Definition e2e_enc (s : e2e_state) : N :=
+  let '(p, pend, st) := s in
+  (match p with None => 0 | Some l => let c := firstn 4 l in 1 + N.of_nat (length c) + 8 * e2e_unbytes c end)
+  + 2 ^ 35 * ((match pend with None => 0 | Some f => 1 + 2 * f end) + 2 ^ 12 * (fst st + 2 ^ 11 * snd st)).
+Definition e2e_dec (m : N) : e2e_state :=
+  let lo := m mod 2 ^ 35 in let hi := m / 2 ^ 35 in
+  let pe := hi mod 2 ^ 12 in let st := hi / 2 ^ 12 in
+  (match lo mod 8 with 0 => None | k => Some (e2e_bytes (N.to_nat (k - 1)) (lo / 8)) end,
+   (if N.odd pe then Some (pe / 2) else None),
+   (st mod 2 ^ 11, st / 2 ^ 11)).
+Definition e2e_mon (m i o : N) : option (N * bool) :=
+  let (s', o') := e2e_step (e2e_dec m) i in Some (e2e_enc s', N.eqb o o').
+Definition e2e_m0 : N := e2e_enc e2e_init.
